@@ -1,6 +1,7 @@
 import ShootVerif.Spec.Json
 import ShootVerif.Proofs.CtorMain
 import ShootVerif.Proofs.Alloc
+import ShootVerif.Proofs.AllocMap
 /-!
 C11 — with -json, MarshalJSON emits one key per exported field and per unexported field that has
 a getter or setter (own, or promoted from an embedded shoot type), named by the explicit json tag
@@ -162,6 +163,30 @@ theorem C11_unmarshal_no_panic (ptrs : List Alloc.Path) (h : Alloc.Heap) :
 theorem C11_marshal_no_panic (ptrs : List Alloc.Path) (h : Alloc.Heap) :
     ∃ b, Alloc.guardRead [] ptrs h = .ok b ∧ (b = true ↔ ∀ q ∈ ptrs, q ∈ h) :=
   Alloc.guardRead_ok ptrs [] h (by simp)
+
+/-- the chains the generated guards / allocation lines use are those of the struct: the stack scan of `makeNew`
+    over the generator's list pairs every field with exactly the embedded pointer structs on ITS way (none inherited
+    from a sibling), and the name-keyed `AllocMap` returns that chain when unshadowed promoted names are distinct -/
+theorem C11_alloc_chain (t : Tree) :
+    (allocScan [] (flatten t)).map (fun e => (e.1.name, e.1.depth, e.2)) =
+      ((leavesPtrs [] [] 0 t).filter (fun l => !l.2.2.1.skip)).map (fun l => (l.2.2.1.name, l.2.1, l.2.2.2.2)) := by
+  rw [allocScan_flatten, treeAllocs_ptrs]
+
+theorem C11_alloc_lookup (t : Tree) (e : Field × List (List String))
+    (he : e ∈ allocScan [] (flatten t)) (hvis : e.1.isShadowed = false) (hdep : e.1.depth ≠ 0)
+    (hnd : (((allocScan [] (flatten t)).filter (fun x => !x.1.isShadowed && x.1.depth != 0)).map (·.1.name)).Nodup) :
+    allocMapOf (flatten t) e.1.name = e.2 :=
+  allocMapOf_unique (flatten t) e he hvis hdep hnd
+
+/-- non-vacuity: a pointer embed that is NOT the last member of its parent; the sibling after it is not under it -/
+example :
+    let t : Tree := .embed "Header" "Header" false false
+      (.field { name := "Source" } (.embed "Trace" "Trace" true false (.field { name := "id" } .nil) (.field { name := "Version" } .nil)))
+      (.field { name := "body" } .nil)
+    (allocScan [] (flatten t)).map (fun e => (e.1.name, e.2)) =
+      [("Source", []), ("id", [["Header", "Trace"]]), ("Version", []), ("body", [])] ∧
+    allocMapOf (flatten t) "Version" = [] ∧ allocMapOf (flatten t) "id" = [["Header", "Trace"]] := by
+  decide
 
 /-! non-vacuity: embedded struct with a shadowed field, an explicit tag, a get-only field -/
 example :
